@@ -69,6 +69,14 @@ Reverse(s) == [j \in 1..Len(s) |-> s[Len(s) + 1 - j]]
 ArgOrderCdf(n) == [j \in 1..n |-> j]
 ArgOrderMarginal(n, dim) == Reverse(Others(n, dim)) \o <<dim>>     \* last dimensions first, dim last
 InversePerm(p) == [k \in 1..Len(p) |-> CHOOSE j \in 1..Len(p) : p[j] = k]
+(* np.argsort of a sequence of distinct integers: position of the k-th smallest entry.  For a      *)
+(* permutation of 1..n it is the inverse permutation; for anything else (e.g. a raw negative index *)
+(* among the entries) it is NOT                                                                    *)
+ArgSort(p) == [k \in 1..Len(p) |->
+                 CHOOSE j \in 1..Len(p) : Cardinality({i \in 1..Len(p) : p[i] < p[j]}) = k - 1]
+(* a variable may be addressed from the end: -1 is the last one *)
+NormDim(n, d) == IF d < 0 THEN n + 1 + d ELSE d
+DimArgs(n) == (1..n) \cup {0 - k : k \in 1..n}
 IsInverse(p, q) == \A k \in 1..Len(p) : p[q[k]] = k
 
 (* what nquad computes: args range over `ranges` (a sequence of sets), the integrand is   *)
